@@ -1077,6 +1077,11 @@ class DateTime(datetime.datetime, Date):
 
         return dt
 
+    def _start_of_day_on(self, year: int, month: int, day: int) -> Self:
+        # Go through noon: the wall time of the instance (or midnight itself)
+        # may be skipped or repeated on the target day.
+        return self.set(year, month, day, 12, 0, 0, 0).start_of("day")
+
     def _first_of_month(self, day_of_week: WeekDay | None = None) -> Self:
         """
         Modify to the first occurrence of a given day of the week
@@ -1087,7 +1092,7 @@ class DateTime(datetime.datetime, Date):
         dt = self.start_of("day")
 
         if day_of_week is None:
-            return dt.set(day=1)
+            return self._start_of_day_on(dt.year, dt.month, 1)
 
         month = calendar.monthcalendar(dt.year, dt.month)
 
@@ -1098,7 +1103,7 @@ class DateTime(datetime.datetime, Date):
         else:
             day_of_month = month[1][calendar_day]
 
-        return dt.set(day=day_of_month)
+        return self._start_of_day_on(dt.year, dt.month, day_of_month)
 
     def _last_of_month(self, day_of_week: WeekDay | None = None) -> Self:
         """
@@ -1110,7 +1115,7 @@ class DateTime(datetime.datetime, Date):
         dt = self.start_of("day")
 
         if day_of_week is None:
-            return dt.set(day=self.days_in_month)
+            return self._start_of_day_on(dt.year, dt.month, self.days_in_month)
 
         month = calendar.monthcalendar(dt.year, dt.month)
 
@@ -1121,7 +1126,7 @@ class DateTime(datetime.datetime, Date):
         else:
             day_of_month = month[-2][calendar_day]
 
-        return dt.set(day=day_of_month)
+        return self._start_of_day_on(dt.year, dt.month, day_of_month)
 
     def _nth_of_month(
         self, nth: int, day_of_week: WeekDay | None = None
@@ -1142,7 +1147,7 @@ class DateTime(datetime.datetime, Date):
             dt = dt.next(day_of_week)
 
         if dt.format("%Y-%M") == check:
-            return self.set(day=dt.day).start_of("day")
+            return self._start_of_day_on(self.year, self.month, dt.day)
 
         return None
 
@@ -1153,7 +1158,7 @@ class DateTime(datetime.datetime, Date):
         modify to the first day of the quarter. Use the supplied consts
         to indicate the desired day_of_week, ex. DateTime.MONDAY.
         """
-        return self.on(self.year, self.quarter * 3 - 2, 1).first_of(
+        return self._start_of_day_on(self.year, self.quarter * 3 - 2, 1).first_of(
             "month", day_of_week
         )
 
@@ -1164,7 +1169,9 @@ class DateTime(datetime.datetime, Date):
         modify to the last day of the quarter. Use the supplied consts
         to indicate the desired day_of_week, ex. DateTime.MONDAY.
         """
-        return self.on(self.year, self.quarter * 3, 1).last_of("month", day_of_week)
+        return self._start_of_day_on(self.year, self.quarter * 3, 1).last_of(
+            "month", day_of_week
+        )
 
     def _nth_of_quarter(
         self, nth: int, day_of_week: WeekDay | None = None
@@ -1179,7 +1186,7 @@ class DateTime(datetime.datetime, Date):
         if nth == 1:
             return self.first_of("quarter", day_of_week)
 
-        dt = self.set(day=1, month=self.quarter * 3)
+        dt = self._start_of_day_on(self.year, self.quarter * 3, 1)
         last_month = dt.month
         year = dt.year
         dt = dt.first_of("quarter")
@@ -1189,7 +1196,7 @@ class DateTime(datetime.datetime, Date):
         if last_month < dt.month or year != dt.year:
             return None
 
-        return self.on(self.year, dt.month, dt.day).start_of("day")
+        return self._start_of_day_on(self.year, dt.month, dt.day)
 
     def _first_of_year(self, day_of_week: WeekDay | None = None) -> Self:
         """
@@ -1198,7 +1205,7 @@ class DateTime(datetime.datetime, Date):
         modify to the first day of the year. Use the supplied consts
         to indicate the desired day_of_week, ex. DateTime.MONDAY.
         """
-        return self.set(month=1).first_of("month", day_of_week)
+        return self._start_of_day_on(self.year, 1, 1).first_of("month", day_of_week)
 
     def _last_of_year(self, day_of_week: WeekDay | None = None) -> Self:
         """
@@ -1207,7 +1214,9 @@ class DateTime(datetime.datetime, Date):
         modify to the last day of the year. Use the supplied consts
         to indicate the desired day_of_week, ex. DateTime.MONDAY.
         """
-        return self.set(month=MONTHS_PER_YEAR).last_of("month", day_of_week)
+        return self._start_of_day_on(self.year, MONTHS_PER_YEAR, 1).last_of(
+            "month", day_of_week
+        )
 
     def _nth_of_year(self, nth: int, day_of_week: WeekDay | None = None) -> Self | None:
         """
@@ -1228,7 +1237,7 @@ class DateTime(datetime.datetime, Date):
         if year != dt.year:
             return None
 
-        return self.on(self.year, dt.month, dt.day).start_of("day")
+        return self._start_of_day_on(self.year, dt.month, dt.day)
 
     def average(  # type: ignore[override]
         self, dt: datetime.datetime | None = None
